@@ -208,6 +208,10 @@ async def run_stream(ctx, case):
                     el_.value = {"Text": prng.choice(["pending", "GO", ""]), "Number": prng.choice([0, 1, 2.5, 100]),
                                  "Switch": prng.choice(["On", "Off"])}[kind_]
                     ctx.count("pending_values_assigned")
+                    if prng.random() < 0.5:
+                        # ... and submits it: the write goes out, the mirror only changes when the server reports something
+                        client.get_device(d_).get_vector(p_).submit()
+                        ctx.count("pending_values_submitted")
                 except Exception as e:
                     ctx.violate(f"assigning-a-pending-value-raises:{kind_}:{type(e).__name__}", f"{d_}.{p_}.{en_}: {e!r}", dict(case, message_index=k))
                     return total_events, len(invoked)
